@@ -187,7 +187,7 @@ def gen_case(rng):
 _CLASS_CACHE = {}
 
 
-def build_task(case):
+def build_task(case, executable="cmd", out_argstr="--out", real_files=None):
     import typing as ty
     from pydra.compose import shell
     from pydra.utils.typing import MultiInputObj, MultiOutputFile
@@ -196,7 +196,7 @@ def build_task(case):
     tmap = {"file": File, "path": Path, "str": str, "int": int, "float": float, "liststr": list[str],
             "multistr": MultiInputObj[str], "listint": list[int], "listpath": list[Path], "none": ty.Optional[str]}
     tmpl = case["template"]
-    key = json.dumps([[f["name"], f["kind"]] for f in case["fields"]] + [tmpl, case["keep"], case["multi"]])
+    key = json.dumps([[f["name"], f["kind"]] for f in case["fields"]] + [tmpl, case["keep"], case["multi"], executable, out_argstr])
     klass = _CLASS_CACHE.get(key)
     if klass is None:
         inputs = {}
@@ -206,17 +206,17 @@ def build_task(case):
                 kw["default"] = None
             inputs[f["name"]] = shell.arg(**kw)
         klass = shell.define(
-            "cmd", inputs=inputs,
+            executable, inputs=inputs,
             outputs={"out": shell.outarg(type=MultiOutputFile if case["multi"] else File,
                                          path_template=tuple(tmpl) if isinstance(tmpl, list) else tmpl,
-                                         keep_extension=case["keep"], argstr="--out", help="")})
+                                         keep_extension=case["keep"], argstr=out_argstr, help="")})
         if len(_CLASS_CACHE) > 4000:
             _CLASS_CACHE.clear()
         _CLASS_CACHE[key] = klass
     kwargs = {}
     for f in case["fields"]:
         if f["kind"] == "file":
-            kwargs[f["name"]] = File.mock(f["value"])
+            kwargs[f["name"]] = File(f["value"]) if real_files else File.mock(f["value"])
         elif f["kind"] != "none":
             kwargs[f["name"]] = f["value"]
     g = case["given"]
@@ -273,6 +273,99 @@ def observe(case):
     except Exception as e:  # noqa
         obs_out = ["err", classify_exc(e)]
     return actual, obs_in, obs_out
+
+
+
+# ------------------------------------------------------------------ metamorphic variants (implementation only)
+def referenced(case):
+    tt = case["template"] if isinstance(case["template"], str) else " ".join(case["template"])
+    return set(re.findall(r"{(\w+)[}:]", tt))
+
+
+def variant_unreferenced(case, rng):
+    """Same outarg; every input the template does not reference gets a new value, plus one more unrelated input."""
+    v = json.loads(json.dumps(case))
+    refs = referenced(case)
+    for f in v["fields"]:
+        if f["name"] not in refs:
+            f["value"] = gen_value(rng, f["kind"])
+    v["fields"].append({"name": "zextra", "kind": "str", "value": rng.choice(STRS)})
+    return v
+
+
+def _swap_ext(path, rng):
+    head, sep, last = path.rpartition("/")
+    if last in ("", ".", "..") or last.startswith("."):
+        return None
+    stem = last.split(".", 1)[0]
+    return head + sep + stem + rng.choice([e for e in EXTS if e != "."] + [".zip", ".a.b.c"])
+
+
+def variant_ext(case, rng):
+    """keep_extension=False: change only the extensions of scalar file/path inputs."""
+    if case["keep"]:
+        return None
+    v = json.loads(json.dumps(case))
+    changed = False
+    for f in v["fields"]:
+        if f["kind"] in ("file", "path"):
+            nv = _swap_ext(f["value"], rng)
+            if nv is not None and nv != f["value"]:
+                f["value"] = nv
+                changed = True
+    return v if changed else None
+
+
+# ------------------------------------------------------------------ end to end: run the task, read outputs.out
+E2E_STRS = ["sub01", "a.b", "k", "v1.2", "x..y", "q-r_s"]
+
+
+def gen_e2e_case(rng, root):
+    nfields = rng.choice([1, 1, 2, 2, 3])
+    fields = []
+    for n in NAMES[:nfields]:
+        kind = rng.choice(["file", "file", "file", "str", "int", "float", "multistr", "listint"])
+        if kind == "file":
+            name = rng.choice(["x", "data", "sub-01_T1w"]) + rng.choice(["", ".txt", ".nii.gz", ".tar.gz.bak"])
+            sub = rng.choice(["in", "in/d.v1"])
+            p = os.path.join(root, sub, name)
+            os.makedirs(os.path.dirname(p), exist_ok=True)
+            open(p, "w").close()
+            val = p
+        elif kind == "str":
+            val = rng.choice(E2E_STRS)
+        elif kind == "multistr":
+            val = [rng.choice(E2E_STRS) for _ in range(rng.choice([1, 2, 3]))]
+        elif kind == "listint":
+            val = [rng.choice(INTS) for _ in range(rng.choice([1, 2, 3]))]
+        else:
+            val = gen_value(rng, kind)
+        fields.append({"name": n, "kind": kind, "value": val})
+    lits = ["out", "_", "-", ".nii", ".txt", "sub/", "v1.2", "x", "_brain", ".tar.gz"]
+    refs = [f["name"] for f in fields]
+    rng.shuffle(refs)
+    refs = refs[:rng.choice([1, 1, 2])]
+    t = rng.choice(["", "pre_", "out"]) + "".join("{%s}" % n + rng.choice(lits + [""]) for n in refs)
+    # a list formatted with str() contains ", " and would be split into several arguments (C23): lists only element-wise
+    multi = any(f["kind"] in ("multistr", "listint") and f["name"] in refs for f in fields)
+    given = True
+    if not multi and rng.random() < 0.15:
+        os.makedirs(os.path.join(root, "explicit"), exist_ok=True)
+        given = os.path.join(root, "explicit", rng.choice(["given.txt", "g.nii.gz"]))
+    return {"fields": fields, "template": t, "keep": rng.random() < 0.6, "multi": multi, "given": given}
+
+
+def observe_e2e(case, cache_root):
+    from pydra.engine.submitter import Submitter
+    from pydra.utils.general import attrs_values
+    klass, task = build_task(case, executable="touch", out_argstr="", real_files=True)
+    vals = attrs_values(task)
+    actual = [(f["name"], vals[f["name"]]) for f in case["fields"]]
+    with Submitter(worker="debug", cache_root=cache_root) as sub:
+        res = sub(task, raise_errors=False)
+    if res.errored:
+        return actual, None, None
+    return actual, str(res.cache_dir), canon(res.outputs.out)
 
 
 # ------------------------------------------------------------------ Coq encoding
@@ -383,29 +476,33 @@ Definition value_ok (c : case_t) : bool :=
   | GTrue => true
   end.
 Definition spec_ok (c : case_t) : bool := inside_ok c && value_ok c.
+(* end-to-end cases: oin = oout = the value of outputs.out after running the task in job directory cd *)
+Definition e2e_ok (c : case_t) : bool :=
+  let '(o, g, vals, cd, oin, oout) := c in res_eqb (output_value o g vals cd) oout.
+Definition e2e_inside (c : case_t) : bool :=
+  let '(o, g, vals, cd, oin, oout) := c in match g with GTrue => obs_inside cd oout | _ => true end.
 (* input class of finding F26 (the excluded class of C26_inside) *)
 Definition not_f26 (c : case_t) : bool :=
   let '(o, g, vals, cd, oin, oout) := c in negb (degenerate_name o vals).
 """
 
 
-def terms_for(case, actual):
-    c = enc_case(case, actual, ["abs"], ["abs"])
-    return c
-
-
 def run(ctx):
+    import shutil
+    import tempfile
     rng = ctx.rng
-    n = ctx.budget(1500, 20000)
+    n = ctx.budget(900, 8000)
     cases, meta = [], []
     dist = {"kinds": {}, "templates_tuple": 0, "multi": 0, "keep": 0, "given_true": 0, "given_false": 0,
-            "given_explicit": 0, "obs_path": 0, "obs_list": 0, "obs_none": 0, "obs_error": {}, "refs": {}}
+            "given_explicit": 0, "obs_path": 0, "obs_list": 0, "obs_none": 0, "obs_error": {}, "refs": {},
+            "variants_unreferenced": 0, "variants_ext": 0, "e2e_runs": 0, "e2e_errored": 0}
     seen = set()
     nontrivial = 0
-    corpus = list(ctx.corpus())
+    corpus = [c["case"] if "case" in c else c for c in ctx.corpus()]
     skipped = 0
+    out = Outcome(rule=RULE)
     for i in range(n):
-        case = corpus[i]["case"] if i < len(corpus) and "case" in corpus[i] else (corpus[i] if i < len(corpus) else gen_case(rng))
+        case = corpus[i] if i < len(corpus) else gen_case(rng)
         try:
             actual, obs_in, obs_out = observe(case)
             enc = enc_case(case, actual, obs_in, obs_out)
@@ -429,24 +526,73 @@ def run(ctx):
             dist["obs_error"][obs_out[1][:20]] = dist["obs_error"].get(obs_out[1][:20], 0) + 1
         else:
             dist[{"one": "obs_path", "many": "obs_list", "none": "obs_none", "abs": "obs_none"}[k]] += 1
-        tt = case["template"] if isinstance(case["template"], str) else "".join(case["template"])
-        nref = len(re.findall(r"{\w+", tt))
+        nref = len(referenced(case))
         dist["refs"][str(min(nref, 3))] = dist["refs"].get(str(min(nref, 3)), 0) + 1
         key = json.dumps(case, sort_keys=True)
         if key not in seen:
             seen.add(key)
             if nref >= 1 and k in ("one", "many"):
                 nontrivial += 1
+        # metamorphic checks on the implementation alone (the Coq counterparts are C26_deterministic / C26_ext_dropped)
+        if i % 4 == 0:
+            for kind, var in (("unreferenced", variant_unreferenced(case, rng)), ("ext", variant_ext(case, rng))):
+                if var is None:
+                    continue
+                try:
+                    _, vin, vout = observe(var)
+                except Exception:
+                    continue
+                dist["variants_" + kind] += 1
+                if (vin, vout) != (obs_in, obs_out):
+                    out.failures.append(Failure(
+                        case=case, observed={"job_inputs": obs_in, "outputs": obs_out, "variant": var,
+                                             "variant_job_inputs": vin, "variant_outputs": vout},
+                        expected="the same resolved path", kind="spec",
+                        note="resolved path depends on an input the template does not reference" if kind == "unreferenced"
+                        else "keep_extension=False but the resolved path depends on the input file's extension"))
     dist["skipped_at_construction"] = skipped
     res = run_cases_sep(ctx.scratch, "c26", IMPORTS, "case_t", cases,
-                          {"tie": "tie_ok", "inside": "inside_ok", "value": "value_ok", "cls": "not_f26", "dom": "in_model"},
-                          extra=EXTRA)
+                        {"tie": "tie_ok", "inside": "inside_ok", "value": "value_ok", "cls": "not_f26", "dom": "in_model"},
+                        extra=EXTRA)
     in_class = set(res["cls"])
     outside_model = set(res["dom"])
     dist["in_F26_class"] = len(in_class)
     dist["outside_modelled_format_fragment"] = len(outside_model)
-    out = Outcome(evaluations=2 * len(meta), distinct_nontrivial=nontrivial, rule=RULE,
-                  samples=[m for m in meta[:6]], distribution=dist, traces_validated=len(meta))
+
+    # ---- end to end: run real tasks (executable `touch`) and compare outputs.out with the model
+    ne = ctx.budget(6, 60)
+    root = tempfile.mkdtemp(prefix="verif-c26-", dir="/tmp")
+    e_cases, e_meta = [], []
+    try:
+        for _ in range(ne):
+            case = gen_e2e_case(rng, root)
+            try:
+                actual, cd, obs = observe_e2e(case, os.path.join(root, "cache"))
+            except Exception as e:  # noqa
+                dist["e2e_errored"] += 1
+                dist.setdefault("e2e_error_examples", [])
+                if len(dist["e2e_error_examples"]) < 3:
+                    dist["e2e_error_examples"].append("%s: %s" % (type(e).__name__, str(e)[:120]))
+                continue
+            if cd is None:
+                dist["e2e_errored"] += 1
+                continue
+            dist["e2e_runs"] += 1
+            c2 = dict(case, cache_dir=cd)
+            e_cases.append(enc_case(c2, actual, obs, obs))
+            e_meta.append({"case": c2, "obs_in": obs, "obs_out": obs, "end_to_end": True})
+    finally:
+        shutil.rmtree(root, ignore_errors=True)
+    eres = {"e2e": [], "e2e_inside": []}
+    if e_cases:
+        eres = run_cases_sep(ctx.scratch, "c26e", IMPORTS, "case_t", e_cases,
+                             {"e2e": "e2e_ok", "e2e_inside": "e2e_inside"}, extra=EXTRA)
+
+    out.evaluations = 2 * len(meta) + dist["variants_unreferenced"] * 2 + dist["variants_ext"] * 2 + len(e_meta)
+    out.distinct_nontrivial = nontrivial
+    out.samples = [m for m in meta[:5]] + e_meta[:2]
+    out.distribution = dist
+    out.traces_validated = len(meta) + len(e_meta)
     reported = 0
     for i in res["inside"]:
         m = meta[i]
@@ -467,6 +613,15 @@ def run(ctx):
                                         expected=exp, kind=kind,
                                         note="resolved path differs from the reference reading of the template / explicit path not used as given"
                                         if kind == "spec" else "model/impl"))
+    for i in eres["e2e_inside"][:10]:
+        m = e_meta[i]
+        out.failures.append(Failure(case=m["case"], observed={"outputs.out": m["obs_out"]}, kind="spec",
+                                    expected="a path strictly inside " + m["case"]["cache_dir"],
+                                    note="end-to-end: outputs.out is not inside the job directory"))
+    for i in eres["e2e"][:10]:
+        m = e_meta[i]
+        out.failures.append(Failure(case=m["case"], observed={"outputs.out": m["obs_out"]}, kind="tie",
+                                    expected="Model.Template.output_value", note="end-to-end model/impl"))
     return out
 
 
